@@ -194,7 +194,13 @@ macro_rules! build {
         }
         let b = $builder
             .with_io(io.build()?)?
-            .with_tls(crate::tpw::TpTls { inner: $tls, limit: $lim.active_cid_limit })?
+            .with_tls(crate::tpw::TpTls {
+                inner: $tls,
+                limit: $lim.active_cid_limit,
+                ep: $ep,
+                muts: crate::tpw::parse(&$cfg.tp_mut, $ep).unwrap_or_default(),
+                seed: $cfg.seed,
+            })?
             .with_event(Sub { enabled: $cfg.events, endpoint_drops: $cfg.endpoint_drops })?
             .with_random(Random(Rng(cfg::mix($cfg.seed ^ $salt))))?
             .with_limits(mk_limits($lim))?
